@@ -56,6 +56,17 @@ CHECKS = {
             "clang JSON AST extraction + exact symbolic (polynomial) decomposition and finite case analysis; ast idiom rule "
             "for the call sites",
             "DESIGN.md section 4 C04"),
+    "C20": (True, "other",
+            "Native half: every one of the ~100 array accesses of specpart.c is a bounds obligation 0 <= index < extent "
+            "(extents from the malloc sizes) discharged by a symbolic range analysis over the clang AST that holds for "
+            "all grid shapes and level counts (intervals with polynomial ends in mk, mth, ihmax; reaching assignments, "
+            "dominating conditions, counted loops, stored-value ranges, call bindings, widening/narrowing); use-after-free "
+            "and the wrapper's unchecked preconditions are separate rules. Python half: 'cannot succeed' lints, ValueError "
+            "discipline of argument validation, guard dominance in the peak kernels.",
+            "termination of the immersion loops, NaN handling in C and finiteness of Python results are not decided; the "
+            "counting-sort permutation and the FIFO queue discipline are stated assumptions.",
+            "symbolic interval analysis (abstract interpretation) over the clang JSON AST + ast lints with CFG dominance",
+            "DESIGN.md section 4 C20"),
 }
 
 NA_DEFAULT = "check under construction in this build round (see DESIGN.md section 8)"
